@@ -51,7 +51,19 @@ func Parse(text string) (*tree.Tree, error) {
 
 // FromModel writes the model with the reference writer and parses it with gotree (gives
 // parser-assigned node and edge ids, like every tree the CLI handles).
+//
+// The text is handed over in one of the presentations of ref.StyleOf (wrapped over LF or CRLF
+// lines, numbers with an upper-case exponent), chosen from the text: the tree is the same.
 func FromModel(m *ref.Node) (*tree.Tree, error) {
+	text := ref.Write(m)
+	if st := ref.StyleOf(text); st != (ref.Style{}) {
+		return Parse(ref.WriteStyled(m, st))
+	}
+	return Parse(text)
+}
+
+// FromModelPlain is FromModel on the one-line text.
+func FromModelPlain(m *ref.Node) (*tree.Tree, error) {
 	return Parse(ref.Write(m))
 }
 
